@@ -23,7 +23,9 @@ EQ == 3
 SameVec(u, v) == \A j \in 1..6 : Abs(u[j] - v[j]) <= EQ
 
 Continuity(c) ==
-  (IF c.realised /\ c.kind = "zero" /\ c.sens_nrad < SENS_BOUND /\ ~c.other_singular /\
+  \* (the documented cost is the distance to previous when the sorting weight is 0 - or when the range centres are the
+  \*  previous position itself, as for the sentinel; c.w16 = 0 or c.centred)
+  (IF c.realised /\ c.kind = "zero" /\ c.sens_nrad < SENS_BOUND /\ ~c.other_singular /\ (c.w16 = 0 \/ c.centred) /\
       (c.answers = <<>> \/ ~SameVec(c.answers[1], c.prev))
    THEN {"C05:first-answer-is-not-previous"} ELSE {})
   \cup
